@@ -204,20 +204,42 @@ where
             }
         }
     }
+    // whole sub-proofs exchanged with those of a second honest proof: same key, bases, commitment key, positions
+    // and revealed values, other hidden values (hence another signature).  Every composite node of the serialised
+    // proof is one unit; a unit that differs must not fit into the first proof.
+    if c.seed % 2 == 0 || c.leaf_edits == 0 {
+        let mut vals2 = vals.clone();
+        for &i in &hidden {
+            vals2[i] = attr_random(&mut st);
+        }
+        let msgs2: Vec<CL03Message> = vals2.iter().cloned().map(CL03Message::new).collect();
+        let sig2 = Signature::<CL03<CS>>::sign_multiattr(pk, &key.sk, &h.bases, &msgs2);
+        if let Ok(p2) = catch(|| PoKSignature::<CL03<CS>>::proof_gen(sig2.cl03Signature(), &h.cpk, pk, &h.bases, &msgs2, &hidden)) {
+            if ver(&p2, &h.cpk, pk, &h.bases, &h.revealed, &hidden, n) {
+                let pj2 = serde_json::to_value(&p2).unwrap();
+                for path in composite_nodes(&pj) {
+                    let (Some(a), Some(b)) = (pj.pointer(&path), pj2.pointer(&path)) else { continue };
+                    if a == b {
+                        continue;
+                    }
+                    let mut j3 = pj.clone();
+                    *j3.pointer_mut(&path).unwrap() = b.clone();
+                    let Ok(p3) = serde_json::from_value::<PoKSignature<CL03<CS>>>(j3) else { continue };
+                    rep.class_n("sub-proofs-exchanged", 1);
+                    reject(&format!("sub-proof-of-another-proof:{}", generic_path(&path)), ver(&p3, &h.cpk, pk, &h.bases, &h.revealed, &hidden, n), format!("{} taken from an honest proof for other hidden values", path))?;
+                }
+            }
+        }
+    }
     // every integer leaf
     let leaves = int_leaves(&pj);
     let edits = pick_edits(&leaves, c.leaf_edits, &mut st);
-    if c.leaf_edits == 0 || c.leaf_edits >= leaves.len() * 4 {
-        rep.exhaustive("every integer leaf of a signature proof x {+1, -1, 0, sibling}".into());
+    if c.leaf_edits == 0 || c.leaf_edits >= leaves.len() * EDIT_KINDS as usize {
+        rep.exhaustive("every integer leaf of a signature proof x {+1, -1, 0, sibling, high bit flipped, +2^k for k >= 128}".into());
     }
     for (li, e) in edits {
         let (path, val) = &leaves[li];
-        let nv = match e {
-            0 => (val + 1u32).complete(),
-            1 => (val - 1u32).complete(),
-            2 => Integer::new(),
-            _ => leaves[(li + 1) % leaves.len()].1.clone(),
-        };
+        let nv = edit_leaf(&leaves, li, e);
         if nv == *val {
             continue;
         }
@@ -225,7 +247,7 @@ where
         set_leaf(&mut j2, path, &nv);
         let Ok(p2) = serde_json::from_value::<PoKSignature<CL03<CS>>>(j2) else { continue };
         rep.class_n("leaf-edits", 1);
-        let tag = ["+1", "-1", ":=0", ":=sibling"][e as usize];
+        let tag = EDIT_TAGS[e as usize];
         rep.eval(ck, 1);
         if ver(&p2, &h.cpk, pk, &h.bases, &h.revealed, &hidden, n) {
             return rep.fail(
@@ -290,7 +312,7 @@ pub fn run(ctx: &Ctx, rep: &Report) -> Meta {
     Meta {
         rule: "signer key from a pool, n attributes, EVERY hidden set (none ... all) for n = 1..3 (quick) / 1..5 (thorough) plus generated cases, signatures issued directly and through blind issuance, commitment key over the issuer modulus; \
                positive: proof_verify true with the revealed attributes in index order, proof survives JSON; negative: every revealed attribute changed, swaps, other signer key (also b or c alone changed), other bases, other commitment key, \
-               another hidden set of the same size, n+1 / n-1, range_proof_e replaced by an honest range proof for another commitment, and integer leaves of the serialised proof perturbed by +1, -1, := 0, := sibling \
+               another hidden set of the same size, n+1 / n-1, range_proof_e replaced by an honest range proof for another commitment, every composite node of the serialised proof replaced by the node at the same path of a second honest proof for other hidden values (same key, bases, commitment key, positions; every second case), and integer leaves of the serialised proof perturbed by +1, -1, := 0, := sibling, one high bit flipped, +2^k for k in {128, 160, 256, 300} \
                (24-40 sampled perturbations per proof in quick, every leaf in thorough's fixed list); hidden-position list extended by positions >= n (appended, prepended) and by a revealed position, an honest range proof for another value transplanted onto Ce, n = 6 and 8; a refusal by panic counts as not verifying; non-trivial = (n, U) != (3, {0}); evaluations = verifier decisions"
             .into(),
         assumptions: vec!["CL2048/CL3072 in thorough only (fixture primes)".into()],
